@@ -387,6 +387,29 @@ def run_case(args):
                         # concretiser: seeded random search for a real input that violates the same harness
                         import zlib
                         crng = random.Random(zlib.crc32(vname.encode()) + 17)
+                        # first around the solver's model (which likes to sit on a boundary: equal epochs, zero angles):
+                        # each numeric input moved by +-10^u, u uniform in [-9, 2], so that the same path is met at every scale
+                        for _ in range(opts.get("concretise_local", 200)):
+                            near = {}
+                            for k_, v_ in inputs.items():
+                                kind_ = p.info.get("inputs", {}).get(k_, ("",))[0]
+                                step = crng.choice((-1, 1)) * 10 ** crng.uniform(-9, 2)
+                                if kind_ == "real" and crng.random() < 0.6:
+                                    near[k_] = float(v_) + step
+                                elif kind_ == "int" and crng.random() < 0.6:
+                                    near[k_] = v_ + crng.choice((-1, 1)) * max(1, int(round(abs(step))))
+                                else:
+                                    near[k_] = v_
+                            try:
+                                st2, nctx2, nd2 = native_run(h, case, values=near)
+                            except Exception:
+                                continue
+                            if st2 == "violated":
+                                st, ndetail = st2, nd2 + " (input found next to the solver's model)"
+                                inputs = dict(nctx2.inputs)
+                                rec["inputs"] = {k: _jsonable(v) for k, v in inputs.items()}
+                                break
+                    if st != "violated":
                         for _ in range(opts.get("concretise", 300)):
                             st2, nctx2, nd2 = native_run(h, case, rng=crng)
                             if st2 == "violated":
@@ -960,7 +983,9 @@ def _report_native_failures(pid, module_names, name, first_bad, kf, known_lines,
                    "obligation": name,
                    "how_to_run": "cd /verif && ./check %s --replay %s" % (pid, os.path.relpath(path, VERIF))},
                   open(path, "w"), indent=1)
-        violations.append((name + " " + repr(label), os.path.relpath(path, VERIF), True,
+        # obligations of the static analyses (frames, return shapes, raise sites) name a function, not an input
+        static = name.split("/")[0] in ("frames", "returns", "exceptions", "representation")
+        violations.append((name + " " + repr(label), os.path.relpath(path, VERIF), not static,
                            {"inputs": label, "native_detail": str(detail)}))
 
 
